@@ -3,6 +3,8 @@
 // in the host snprintf sees an argument of exactly the promoted type the
 // directive declares, and a capture sink.
 #pragma once
+#include <sys/syscall.h>
+#include <unistd.h>
 #include "vpbt.h"
 #include <cstdarg>
 #include <cstdio>
@@ -81,6 +83,15 @@ inline int igris_printf_v(Capture *cap, const char *fmt, ...)
     va_end(ap);
     return r;
 }
+extern "C" int igc_vfdprintf(int fd, const char *format, va_list args);
+inline int igris_fdprintf_v(int fd, const char *fmt, ...)
+{
+    va_list ap;
+    va_start(ap, fmt);
+    int r = igc_vfdprintf(fd, fmt, ap);
+    va_end(ap);
+    return r;
+}
 inline int igris_sprintf_v(char *buf, const char *fmt, ...)
 {
     va_list ap;
@@ -101,6 +112,10 @@ struct Result
     bool do_sprintf = false;
     int sp_ret = 0;
     std::string sp_out;
+    // fdprintf route (the shim's vfdprintf into a memory file, read back)
+    bool do_fdprintf = false;
+    int fd_ret = 0;
+    std::string fd_out;
 };
 
 #pragma clang diagnostic push
@@ -119,6 +134,21 @@ template <class... Ts> void call_all(Result &r, const char *fmt, Ts... as)
         return;
     }
     r.igris_ret = igris_printf_v(&r.cap, fmt, as...);
+    if (r.do_fdprintf)
+    {
+        int fd = (int)syscall(SYS_memfd_create, "vpbt-fdprintf", 0);
+        if (fd >= 0)
+        {
+            r.fd_ret = igris_fdprintf_v(fd, fmt, as...);
+            off_t n = lseek(fd, 0, SEEK_END);
+            r.fd_out.resize(n > 0 ? (size_t)n : 0);
+            if (n > 0 && pread(fd, &r.fd_out[0], (size_t)n, 0) != n)
+                r.fd_out.clear();
+            close(fd);
+        }
+        else
+            r.do_fdprintf = false;
+    }
     if (r.do_sprintf && r.host_ret >= 0 && r.host_ret < 4000)
     {
         // exactly the room ISO output needs: a longer igris output is an ASan report
